@@ -4,6 +4,7 @@ import MV.Driver.MWU
 import MV.Driver.Discrete
 import MV.Driver.Hist
 import MV.Driver.Sample
+import MV.Driver.Scale
 open MV
 
 /-- ops whose handler models panics itself -/
@@ -17,6 +18,12 @@ def dispatchOp (ins outs : List J) : Verdict :=
   | .atom "bin" :: rest => Discrete.handleBin rest outs
   | .atom "lh" :: rest => Hist.handleLin rest outs
   | .atom "smp" :: rest => Sample.handle rest outs
+  | .atom "sc" :: rest => Scale.handleScale rest outs
+  | .atom "findlevel" :: rest => Scale.handleFindLevel rest outs
+  | .atom "lticks" :: rest => Scale.handleLinTicks rest outs
+  | .atom "lnice" :: rest => Scale.handleLinNice rest outs
+  | .atom "gticks" :: rest => Scale.handleLogTicks rest outs
+  | .atom "gnice" :: rest => Scale.handleLogNice rest outs
   | .atom "vec" :: rest => Sample.handleVec rest outs
   | .atom "gh" :: rest => Hist.handleLog rest outs
   | .atom "hyp" :: rest => Discrete.handleHyp rest outs
